@@ -232,14 +232,27 @@ impl<SystemType : System> History<SystemType>
             Err(_) => return Err(HistoryError::CannotSerializeRuleHistory(rule_history_file_path)),
         };
 
+        /*  Write a temporary file and rename it into place.  If ruler is killed part-way, the
+            next invocation finds the previous history file (or none), never a truncated one,
+            which it could not interpret and which would make every later build fail. */
+        let temp_file_path = format!("{}.tmp", rule_history_file_path);
+
         let mut file =
-        match system.create_file(&rule_history_file_path)
+        match system.create_file(&temp_file_path)
         {
             Ok(file) => file,
             Err(_error) => return Err(HistoryError::CannotWriteRuleHistoryFile(rule_history_file_path)),
         };
 
         match file.write_all(&content)
+        {
+            Ok(_) => {},
+            Err(_error) => return Err(HistoryError::CannotWriteRuleHistoryFile(rule_history_file_path)),
+        }
+
+        drop(file);
+
+        match system.rename(&temp_file_path, &rule_history_file_path)
         {
             Ok(_) => Ok(()),
             Err(_error) => Err(HistoryError::CannotWriteRuleHistoryFile(rule_history_file_path)),
